@@ -90,13 +90,15 @@ def check(ctx):
         ID = "substitutes::get_ident_from_type_path(TY@Type::Path.0)"
         FIND = "Iterator::find(P1,|1|{(%s@v1::Some.0==C1_0.0)})" % ID
         visit = [SEG, AB, ARGS, GT, TP]
-        writes = [e for e in effs if e["kind"] in ("assign", "assignop")]
+        writes = [e for e in effs if e["kind"] in ("assign", "assignop") and (e["lid"] in syms or e["lid"] == N.param_id(0))]      # writes through the path
         ok = len(writes) == 1
         detail = "writes: %s" % [(e["name"], e["guards"]) for e in writes]
         if ok:
             w = writes[0]
             rhs = show(N.term(w["node"]["r"], syms))
-            ok = w["guards"] == visit + ["let v1::Some($)=" + ID, "let v1::Some((_,$))=" + FIND] \
+            import re as _re
+            gs = [_re.sub(r"^let v1::Some\([$_(),]*\)=", "let v1::Some(..)=", g) for g in w["guards"]]      # which parts of the hit are bound does not matter
+            ok = gs == visit + ["let v1::Some(..)=" + ID, "let v1::Some(..)=" + FIND] \
                 and q.term_matches(rhs, "TypePath::to_syn_type(%s@v1::Some.0.1,%s)" % (FIND, ANY))
             detail = "the write is `%s` under %s" % (rhs[:200], w["guards"])
         ctx.expect(ok, "C07.7", "replacer/write", rf["sp"],
